@@ -48,15 +48,63 @@ def gen_case(seed, i, nperm):
     return {'id': i, 'kind': kind, 'json_ast': js, 'cfgspecs': permutations_of(rng.fork('perm'), cfg, nperm)}
 
 
+PROCESS_KINDS = ['plain', 'model-files-exist', 'model-files-are-symlinks', 'other-locale-home-and-depth']
+
+
+def process_kind(hashseed):
+    """"The process it runs in" is varied together with the hash seed (a pure function of it, so that a replay re-creates
+    the same process): working directory, what the file system shows at the configured model file name (nothing / a
+    regular file / a symbolic link to a file of another name), locale, HOME, TZ."""
+    return PROCESS_KINDS[hashseed % len(PROCESS_KINDS)]
+
+
+def _prepare_process_dir(root, kind, cases):
+    cwd = os.path.join(root, 'w')
+    if kind == 'other-locale-home-and-depth':
+        cwd = os.path.join(root, 'deeply', 'nested.dir', 'Work Space')
+    os.makedirs(cwd)
+    if kind in ('model-files-exist', 'model-files-are-symlinks'):
+        n = 0
+        for c in cases:
+            for cfg in c['cfgspecs'][:1]:
+                name = cfg['dezyne_filename']
+                if not name or os.path.isabs(name) or name.endswith('/'):
+                    continue
+                path = os.path.normpath(os.path.join(cwd, name))
+                if not path.startswith(root + os.sep) or os.path.lexists(path):
+                    continue
+                os.makedirs(os.path.dirname(path), exist_ok=True)
+                n += 1
+                if kind == 'model-files-exist':
+                    with open(path, 'w', encoding='utf-8') as f:
+                        f.write('{}')
+                else:
+                    target = os.path.join(root, f'Elsewhere_{n}.dzn')
+                    with open(target, 'w', encoding='utf-8') as f:
+                        f.write('{}')
+                    os.symlink(target, path)
+    return cwd
+
+
 def run_child(hashseed, cases, keep_contents=False, timeout=900):
+    import shutil
+    import tempfile
     env = dict(os.environ)
     env['PYTHONHASHSEED'] = str(hashseed)
-    req = {'mode': 'build', 'keep_contents': keep_contents,
-           'cases': [{'id': c['id'], 'json_ast': c['json_ast'], 'cfgspecs': c['cfgspecs']} for c in cases]}
-    p = subprocess.run([sys.executable, CHILD], input=json.dumps(req).encode('utf-8'), stdout=subprocess.PIPE,
-                       stderr=subprocess.PIPE, env=env, timeout=timeout)
+    kind = process_kind(hashseed)
+    root = os.path.realpath(tempfile.mkdtemp(prefix='verif-c08-proc-', dir=engine.SCRATCH_ROOT))
+    try:
+        cwd = _prepare_process_dir(root, kind, cases)
+        if kind == 'other-locale-home-and-depth':
+            env.update({'LC_ALL': 'C', 'LANG': 'C', 'TZ': 'Pacific/Kiritimati', 'HOME': cwd, 'USER': 'somebody-else', 'COLUMNS': '37'})
+        req = {'mode': 'build', 'keep_contents': keep_contents,
+               'cases': [{'id': c['id'], 'json_ast': c['json_ast'], 'cfgspecs': c['cfgspecs']} for c in cases]}
+        p = subprocess.run([sys.executable, CHILD], input=json.dumps(req).encode('utf-8'), stdout=subprocess.PIPE,
+                           stderr=subprocess.PIPE, env=env, timeout=timeout, cwd=cwd)
+    finally:
+        shutil.rmtree(root, ignore_errors=True)
     if p.returncode != 0:
-        raise RuntimeError(f'child (PYTHONHASHSEED={hashseed}) failed: {p.stderr.decode()[-2000:]}')
+        raise RuntimeError(f'child (PYTHONHASHSEED={hashseed}, process {kind}) failed: {p.stderr.decode()[-2000:]}')
     return json.loads(p.stdout)
 
 
@@ -142,9 +190,9 @@ def run_check(tier, seed, n_cases, hashseeds, nperm):
                     ra = run_child(a[0], detail_cases, keep_contents=True)['out'][0]['results'][a[1]]
                     rb = run_child(b[0], detail_cases, keep_contents=True)['out'][0]['results'][b[1]]
                     diff = first_difference(ra, rb)
-                    cls = 'purity:outcome-depends-on-hash-seed-or-set-order' if 'error' in ra or 'error' in rb else \
-                        'purity:output-depends-on-hash-seed-or-set-order'
-                    rep.add_violation(cls, f'PYTHONHASHSEED={a[0]}/order#{a[1]} vs PYTHONHASHSEED={b[0]}/order#{b[1]}: {diff}',
+                    cls = 'purity:outcome-depends-on-hash-seed-set-order-or-process' if 'error' in ra or 'error' in rb else \
+                        'purity:output-depends-on-hash-seed-set-order-or-process'
+                    rep.add_violation(cls, f'PYTHONHASHSEED={a[0]}/order#{a[1]}/process {process_kind(a[0])} vs PYTHONHASHSEED={b[0]}/order#{b[1]}/process {process_kind(b[0])}: {diff}',
                                       {'world': 'C', 'case': case, 'pairs': [list(a), list(b)], 'difference': diff})
         if len(messages) > 1:
             error_text_varies += 1
@@ -165,7 +213,10 @@ def run_check(tier, seed, n_cases, hashseeds, nperm):
                 'distinct by output signature',
         'samples': samples, 'cases': n_cases, 'hash_seeds': list(hashseeds), 'orders_per_case': nperm,
         'order_sensitive_cases': len(order_sensitive), 'content_hashes_checked_against_md5': hash_checked,
+        'process_kinds': {k: sum(1 for hs in hashseeds if process_kind(hs) == k) for k in PROCESS_KINDS},
         'fault_kinds_fired': {'hash_seed_changed': len(hashseeds) - 1, 'set_construction_order_permuted': n_cases * (nperm - 1),
+                              'process_environment_changed (cwd, file system at the model file name, locale, HOME, TZ)':
+                                  sum(1 for hs in hashseeds if process_kind(hs) != process_kind(hashseeds[0])),
                               'configuration_with_unknown_port_names': sum(1 for c in cases if c['kind'] != 'valid')},
         'probes': {'set_iteration_order_actually_differed': len(order_sensitive),
                    'failing_builds_whose_error_text_varied_between_evaluations (not judged: the statement is about files)': error_text_varies},
